@@ -148,7 +148,8 @@ def accepted_roots(t, rlib, deps, workdir):
 # C02
 
 
-FORMS = ['add', 'sub', 'rem', 'adda', 'suba', 'rema', 'eq', 'lt', 'pcmp', 'ordmax', 'letbind', 'hypot', 'atan2', 'newf', 'getf', 'from']
+FORMS = ['add', 'sub', 'rem', 'adda', 'suba', 'rema', 'eq', 'lt', 'pcmp', 'ordmax', 'letbind', 'hypot', 'atan2', 'newf', 'getf', 'from',
+         'satadd', 'satsub', 'sum']
 
 
 def probe_fn(name, form, a, b):
@@ -169,6 +170,12 @@ def probe_fn(name, form, a, b):
     }
     if form == 'ordmax':
         return 'pub fn %s(a: %s, b: %s) { let _ = Ord::max(a, b); }' % (name, Ai, Bi)
+    if form == 'satadd':
+        return 'pub fn %s(a: %s, b: %s) { let _ = uom::num::Saturating::saturating_add(a, b); }' % (name, Ai, Bi)
+    if form == 'satsub':
+        return 'pub fn %s(a: %s, b: %s) { let _ = uom::num::Saturating::saturating_sub(a, b); }' % (name, Ai, Bi)
+    if form == 'sum':
+        return 'pub fn %s(a: %s, b: %s) { let _: %s = [b].into_iter().sum(); let _ = a; }' % (name, A, B, A)
     return 'pub fn %s(a: %s, b: %s) { %s }' % (name, A, B, body[form])
 
 
